@@ -263,7 +263,7 @@ def run(ctx):
                 "or one public operation compared between original and restored lattice; non-trivial = lattice with edges; "
                 "distinct by (lattice, protocol, history | operation | pair)")
     rep0 = core.guarded_translate(ctx, translate.regenerate_all, "T-int/T-const", dict(kernels=[], tables=[], changed={}))
-    ctx.translated = [t for t in rep0.get("tables", []) if isinstance(t, dict) and t.get("table") in ("index_widths", "crossing_width")]
+    core.note_translation(ctx, [t for t in rep0.get("tables", []) if isinstance(t, dict) and t.get("table") in ("index_widths", "crossing_width")])
     ctx.run_audit()
     rng = np.random.default_rng(ctx.seed)
     quick = ctx.tier == "quick"
